@@ -183,7 +183,7 @@ struct Spy : Allocator {
     calls++; nrealloc++;
     size_t old = 0;
     if (p) { if (!live.count(p)) { bad = true; std::cout << "BADREALLOC" << std::endl; abort(); } old = live[p]; }
-    bool growing = n > old || !p;
+    bool growing = n > old;        // reallocate(nullptr, 0) asks for nothing and is never made to fail
     if (growing) requested += n - old;
     bool f = growing && shouldFail();
     if (logging) GLOG += " a" + std::to_string(id) + ":R" + std::to_string(n) + (f ? "!" : "");
